@@ -192,6 +192,31 @@ def battery(quick=True):
             attempt(f"file[{fmt},n=333,chunk=40,centres,workers=2]",
                     lambda pth=pth: compare(yaw.Catalog.from_file(target(), pth, ra_name="ra", dec_name="dec", redshift_name="z", patch_centers=centres, chunksize=40,
                                                                   max_workers=2), df, ("z",), nearest(df, centres)))
+        # radian input from files is stored unchanged (degrees=False must reach every reader)
+        df_rad = df.assign(ra=np.deg2rad(df.ra), dec=np.deg2rad(df.dec))
+        rad_paths = {}
+        try:
+            rad_paths["parquet"] = f"{tmp}/in_rad.parquet"
+            pq.write_table(pa.Table.from_pandas(df_rad), rad_paths["parquet"], row_group_size=50)
+            rad_paths["hdf5"] = f"{tmp}/in_rad.hdf5"
+            with h5py.File(rad_paths["hdf5"], "w") as f:
+                for col in df_rad.columns:
+                    f.create_dataset(col, data=df_rad[col].to_numpy())
+            rad_paths["fits"] = f"{tmp}/in_rad.fits"
+            Table.from_pandas(df_rad).write(rad_paths["fits"])
+        except Exception:  # noqa: BLE001
+            pass
+
+        def radian_file(pth):
+            cat = yaw.Catalog.from_file(target(), pth, ra_name="ra", dec_name="dec", weight_name="w", patch_name="pid", degrees=False, chunksize=100, max_workers=1)
+            for pid in cat.keys():
+                d = cat[pid].load_data()
+                sel = df_rad[df_rad.pid == pid]
+                if not np.array_equal(_rows([d["ra"], d["dec"]]), _rows([sel.ra.to_numpy(), sel.dec.to_numpy()])):
+                    return f"patch {pid}: radian coordinates were changed"
+            return True
+        for fmt, pth in rad_paths.items():
+            attempt(f"file[{fmt},radian input]", lambda pth=pth: radian_file(pth))
         if len(paths) < 3:
             out.append(("file sources available", False, f"only {sorted(paths)} could be written in this environment"))
 
